@@ -94,6 +94,8 @@ def gen_case(rng, i):
         else:
             T.append(-np.abs(rng.normal(0.2, 0.2, m_)) * ext); cls.append("negative")
     B = np.clip(np.array(T), -100, 100)
+    if i % 7 == 3:
+        B = np.round(B)      # integer-valued targets (handed over as int64 by the harness); class labels become approximate
     wk = ["none", "receptor", "sample"][rng.integers(3)]
     W = None if wk == "none" else (rng.uniform(0.2, 5, m_) if wk == "receptor" else rng.uniform(0.2, 5, (N, m_)))
     api = ["fit(B)", "lsq_linear", "register_targets+fit()"][rng.integers(3)]
